@@ -265,7 +265,19 @@ package yubiattest
 //@   modifies nothing
 //@   ensures [pinned-oid-table] !isOID7(ai.Algorithm, 1, 2, 840, 113549, 1, 1, 10) ==> result == sigAlgoOfOID(ai.Algorithm)
 //@   ensures [pss-is-one-of-three-or-unknown] isOID7(ai.Algorithm, 1, 2, 840, 113549, 1, 1, 10) ==> (result == 0 || result == 13 || result == 14 || result == 15)
+//@   # RSASSA-PSS (RFC 4055, 3.1): the parameters of the algorithm identifier are decoded and the hash algorithm with its salt length decides
+//@   # (id-sha256 2.16.840.1.101.3.4.2.1 / 32 bytes, id-sha384 ...2.2 / 48, id-sha512 ...2.3 / 64); parameters that do not decode give "unknown"
+//@   let u0 = old(calls(asn1.Unmarshal))
+//@   ensures [pss-parameters-are-decoded] isOID7(ai.Algorithm, 1, 2, 840, 113549, 1, 1, 10) ==> (calls(asn1.Unmarshal) >= u0 + 1 &&
+//@     arg(asn1.Unmarshal, u0, 0) == ai.Parameters.FullBytes && typeof(arg(asn1.Unmarshal, u0, 1)) == *pssParameters &&
+//@     (ret(asn1.Unmarshal, u0, 1) != nil ==> result == 0))
+//@   ensures [pss-hash-and-salt-decide] isOID7(ai.Algorithm, 1, 2, 840, 113549, 1, 1, 10) ==> (
+//@     (result == 13 ==> (isOID9(arg(asn1.Unmarshal, u0, 1).(*pssParameters).Hash.Algorithm, 2, 16, 840, 1, 101, 3, 4, 2, 1) && arg(asn1.Unmarshal, u0, 1).(*pssParameters).SaltLength == 32)) &&
+//@     (result == 14 ==> (isOID9(arg(asn1.Unmarshal, u0, 1).(*pssParameters).Hash.Algorithm, 2, 16, 840, 1, 101, 3, 4, 2, 2) && arg(asn1.Unmarshal, u0, 1).(*pssParameters).SaltLength == 48)) &&
+//@     (result == 15 ==> (isOID9(arg(asn1.Unmarshal, u0, 1).(*pssParameters).Hash.Algorithm, 2, 16, 840, 1, 101, 3, 4, 2, 3) && arg(asn1.Unmarshal, u0, 1).(*pssParameters).SaltLength == 64)) &&
+//@     (result != 0 ==> arg(asn1.Unmarshal, u0, 1).(*pssParameters).TrailerField == 1))
 //@   loop 1:
+//@     invariant !isOID7(ai.Algorithm, 1, 2, 840, 113549, 1, 1, 10)
 //@     invariant forall(k, 0 <= k && k <= rangeindex, !oidEq(ai.Algorithm, signatureAlgorithmDetails[k].oid))
 
 //@ # extended key usages (RFC 5280, 4.2.1.12 and the vendor ones): a usage is reported iff the OID is in the table, and it is that entry's
